@@ -13,6 +13,14 @@ Ltac step_cases H :=
            end
          end.
 
+(* unfold only the record projections and setters of the model *)
+Ltac simp_st :=
+  cbn [main rn stop_called errq sigq own_cancel parent_cancel sd sd_timed_out sd_trig rm rls sls
+       sdm_done stm_done mon mq cur smap hup callers subs passes aux hist rtrig strig sub_ok
+       set_main set_rn set_errq set_sigq set_sd set_stop_called set_cancel set_sd_trig set_rm
+       set_listeners set_mon set_cur set_smap set_hup set_callers set_aux set_rtrig set_strig
+       set_sub_ok with_hist] in *.
+
 Lemma step_hist c s l s' :
   step c s l = Some s' ->
   hist s' = match obs l with Some e => e :: hist s | None => hist s end.
@@ -71,3 +79,20 @@ Proof.
   destruct (Nat.lt_ge_cases j (length l)) as [L|L]; [left; now apply get_upd_same|].
   right. unfold get. rewrite !nth_overflow; auto. now rewrite upd_length.
 Qed.
+
+Lemma event_eqb_refl e : event_eqb e e = true.
+Proof.
+  assert (N : forall n, Nat.eqb n n = true) by (intros; apply Nat.eqb_refl).
+  assert (B : forall b, Bool.eqb b b = true) by (intros []; reflexivity).
+  assert (O : forall o, op_eqb o o = true) by (intros [| |[]]; reflexivity).
+  assert (OS : forall o, opt_st_eqb o o = true) by (intros [x|]; cbn; auto).
+  assert (SM : forall m, smap_eqb m m = true)
+    by (induction m as [|x m IH]; cbn; [reflexivity|now rewrite OS, IH]).
+  assert (NL : forall m, natlist_eqb m m = true)
+    by (induction m as [|x m IH]; cbn; [reflexivity|now rewrite N, IH]).
+  destruct e; cbn; rewrite ?N, ?B, ?O, ?SM; try reflexivity.
+  - destruct e as [[x b]|]; cbn; rewrite ?N, ?B; reflexivity.
+  - destruct r; cbn; rewrite ?N; reflexivity.
+  - unfold snapshot_eqb. now rewrite NL, SM, B, N.
+Qed.
+
